@@ -28,6 +28,7 @@ from hypothesis import strategies as st
 PLUGIN_TYPES = ["component", "combiner", "condition", "rule", "datasource", "parser"]
 ALL_TYPES = ["plain"] + PLUGIN_TYPES + ["regpoint"]
 FAULTS = ["ok", "skip", "content", "cpe", "timeout", "boom", "boom2"]
+RARE_FAULTS = ["blacklisted"]      # BlacklistedSpec: an ordinary exception as far as accounting goes
 MODNAME = "vp_dyn_generated"
 
 _counter = itertools.count()
@@ -55,6 +56,9 @@ def make_fault(f, tag):
         return KeyError("boom %s" % (tag,))
     if f == "boom2":
         return Boom2("boom2 %s" % (tag,))
+    if f == "blacklisted":
+        from insights.core.exceptions import BlacklistedSpec
+        return BlacklistedSpec("blacklisted %s" % (tag,))
     raise AssertionError(f)
 
 
@@ -110,7 +114,7 @@ def graphs(draw, min_nodes=2, max_nodes=10, faults=True, types=None, seeds=True,
         same = [j for j in range(i) if part_of[j] == part_of[i]]
         node = {"t": t, "decl": [], "fault": "ok", "multi": 0, "efaults": ["ok"], "coe": True}
         if faults:
-            node["fault"] = draw(st.sampled_from(FAULTS + ["ok"] * 8))
+            node["fault"] = draw(st.sampled_from(FAULTS + ["ok"] * 8 + (RARE_FAULTS if t in ("datasource", "component", "combiner", "plain") else [])))
         view = [nodes[j] if j in same else {"t": "rule"} for j in range(i)]   # other parts look undependable
         if t == "regpoint":
             impls = [j for j in same if nodes[j]["t"] == "datasource" and not nodes[j].get("attached")]
@@ -139,6 +143,8 @@ def graphs(draw, min_nodes=2, max_nodes=10, faults=True, types=None, seeds=True,
                 node["multi"] = draw(st.sampled_from([0, 0, 1, 2, 3, 4]))
         elif t not in ("regpoint", "parser"):
             node["decl"] = _decl(draw, i, view)
+        if t in ("plain", "component", "combiner", "condition", "rule") and node["decl"]:
+            node["kwform"] = draw(st.sampled_from([False] * 7 + [True]))
         if t in ("plain", "component", "combiner", "condition"):
             # what the body returns: a tuple embedding its arguments, or a falsy but perfectly valid value
             node["val"] = draw(st.sampled_from(VALUE_KINDS))
@@ -273,6 +279,9 @@ def build(case):
         ctype = type_of(t)
         if t == "parser":
             deco = ctype(*pos, continue_on_error=nd["coe"])
+        elif nd.get("kwform") and pos:
+            # the documented (deprecated) keyword spelling of the same declaration
+            deco = ctype(requires=list(pos), optional=opt) if opt else ctype(requires=list(pos))
         elif opt:
             deco = ctype(*pos, optional=opt)
         else:
@@ -287,8 +296,16 @@ def build(case):
     return b
 
 
+def re_generated(name):
+    return isinstance(name, str) and (name.startswith("rp") and "_" in name)
+
+
 def cleanup(b):
     from insights.core import dr
+    from insights.core import blacklist
+    # run_components notes the specs of a component that raised BlacklistedSpec in a global list
+    for name in [n for n in blacklist.BLACKLISTED_SPECS if re_generated(n)]:
+        blacklist.BLACKLISTED_SPECS.remove(name)
     mod = sys.modules.get(MODNAME)
     comps = list(b.comps)
     for c in comps:
